@@ -236,6 +236,17 @@ Theorem C13_values_lose_binding :
 Proof. exact values_lose_binding. Qed.
 Print Assumptions C13_values_lose_binding.
 
+(* ---- the gate: only classes that enter the key by value may use the caches ------------------------ *)
+(* on the GENERATED list of classes accepted by can_hash_optimize and the generated hash_prepare_optimize
+   chain: every accepted class is immutable in the key (str, tuple, or list snapshotted into a tuple).
+   A class keyed by identity (ContractionTree, an optimizer object) can be modified in place between two
+   calls with the same key -- then `build_respects` (the computation reads nothing but the key's fields)
+   is false and no transparency theorem applies; this theorem stops compiling for such a gate. *)
+Theorem C13_gate_accepts_only_value_classes :
+  forallb (gate_class_is_value prepare_chain) can_hash_classes = true.
+Proof. vm_compute. reflexivity. Qed.
+Print Assumptions C13_gate_accepts_only_value_classes.
+
 (* ---- canonicalisation ------------------------------------------------------------------------ *)
 (* with canonicalize=True an injective (w.r.t. ==) relabelling of the indices yields the very same
    normalised call -- same key, same arguments handed to the computation: sharing the entry is right *)
